@@ -15,10 +15,10 @@ var bufferPool = sync.Pool{
 }
 
 func containsInterpolation(input string) bool {
-	open := strings.Count(input, "{{")
-	close := strings.Count(input, "}}")
-
-	return open == close && open > 0
+	// at least one "{{ ... }}" pair; further braces around it (JSON written in an attribute,
+	// "}}" closing nested objects) do not make the mustache any less of a mustache
+	open := strings.Index(input, "{{")
+	return open >= 0 && strings.Contains(input[open+2:], "}}")
 }
 
 // interpolateToWriter writes input to w with every {{ expr }} replaced by the string form
